@@ -40,7 +40,7 @@ def attack_packets(rng, ufrag_target, ufrag_peer, n, kinds=None):
     for _ in range(n):
         kind = rng.choice(kinds) if kinds else rng.choice(["random", "random-stunlike", "req-nomi", "req-trunc", "req-empty", "req-long", "req-wrongkey",
                            "req-wrongkey-fp", "resp-forged", "err487", "err403", "indication", "rtp", "othermethod",
-                           "req-wrongkey-badfp", "indication-bare", "indication-wrongkey"])
+                           "req-wrongkey-badfp", "indication-bare", "indication-wrongkey", "nocookie-req", "nocookie-req", "nocookie-ind"])
         txid = bytes(rng.randrange(256) for _ in range(12))
         attrs = [(stunpy.A_USERNAME, uname), (stunpy.A_PRIORITY, struct.pack("!I", rng.randrange(1, 2 ** 31))),
                  (stunpy.A_CONTROLLING, struct.pack("!Q", 2 ** 64 - 1)), (stunpy.A_USE_CAND, b"")]
@@ -75,6 +75,15 @@ def attack_packets(rng, ufrag_target, ufrag_peer, n, kinds=None):
             p = stunpy.build(3, 1, txid, [(stunpy.A_ERROR, stunpy.error_attr(403))], key=wrongkey, fingerprint=True)
         elif kind == "indication":
             p = stunpy.build(1, 1, txid, attrs[:1], key=None, fingerprint=True)
+        elif kind == "nocookie-req":
+            # RFC 3489 style (no magic cookie) request: bare, or with the usual check attributes, never authenticated
+            q = bytearray(stunpy.build(0, 1, txid, rng.choice([[], attrs, attrs[:1]]), key=None, fingerprint=False))
+            q[4:8] = bytes(rng.randrange(256) for _ in range(4))
+            p = bytes(q)
+        elif kind == "nocookie-ind":
+            q = bytearray(stunpy.build(1, 1, txid, rng.choice([[], attrs[:1]]), key=None, fingerprint=False))
+            q[4:8] = bytes(rng.randrange(256) for _ in range(4))
+            p = bytes(q)
         elif kind == "indication-bare":
             p = stunpy.build(1, 1, txid, [], key=None, fingerprint=rng.random() < 0.5)
         elif kind == "indication-wrongkey":
@@ -98,6 +107,10 @@ def session(exe, seed, attack):
     vanish = rng.random() < 0.35
     if vanish:
         cfg.update(consent=1)
+    # half of the sessions gather against a slow / silent STUN server: discovery transactions (whose STUN agents do not
+    # use the stream credentials) are pending while the attacker injects
+    if rng.random() < 0.5:
+        cfg.update(stunsrv=rng.choice(["d", "ddd", "l", "dl", "s"]))
     s = sc.start_session(exe, seed, cfg)
     s.op(f"net latency {lat} {lat}")          # constant latency: the network draws no random numbers
     s.op("net tickcost 0")                    # dispatching costs no virtual time: injected packets cannot shift timing
@@ -221,6 +234,102 @@ def scenario(args):
                 s.close()
 
 
+def tcp_scenario(args):
+    """ICE-TCP: a party that knows nothing opens its own TCP connections to an agent's tcp-passive candidate (before any
+    check and after READY) and writes RFC 4571 framed payloads, STUN-lookalikes and garbage.  Nothing of it may reach the
+    application, no candidate / pair / state may come from it, and the legitimate peer's data still arrives."""
+    exe, seed, tier = args
+    import random
+    rng = random.Random(f"C03tcp/{seed}")
+    s = simlib.Sim(exe)
+    bad = []
+    n_inj = 0
+    try:
+        s.op(f"net seed {seed}"); s.op("net trace 0"); s.op("net latency 1 1")
+        s.op("new A ctrl=1 compat=0 opts=0 icetcp=1 iceudp=0")
+        s.op("new B ctrl=0 compat=0 opts=0 icetcp=1 iceudp=0")
+        for ag in "AB":
+            s.op(f"stream {ag} 1"); s.op(f"attach {ag} 1"); s.op(f"gather {ag} 1")
+        s.op("run 100")
+        passive = {}
+        for e in s.events():
+            m = re.match(r"t=\d+ (\w+) new-candidate \d+ type=0 tr=2 comp=1 .* addr=(\S+) base", e)
+            if m:
+                passive[m.group(1)] = m.group(2)
+        victim = rng.choice("AB")
+        other = "B" if victim == "A" else "A"
+
+        def frames(tag):
+            out = b""
+            for k in range(rng.randint(1, 3)):
+                kind = rng.choice(["data", "data", "stunlike", "short", "big"])
+                if kind == "data":
+                    pl = f"EVIL-{tag}-{k}".encode() + bytes(rng.randrange(256) for _ in range(rng.choice([0, 5, 100])))
+                elif kind == "stunlike":
+                    pl = stunpy.build(rng.choice([0, 1, 2]), 1, bytes(rng.randrange(256) for _ in range(12)),
+                                      [(stunpy.A_USERNAME, b"ab:cd")], key=b"wrongwrongwrongwrongww", fingerprint=True)
+                elif kind == "short":
+                    pl = bytes(rng.randrange(256) for _ in range(rng.choice([1, 2, 3])))
+                else:
+                    pl = b"EVIL-big" + bytes(rng.randrange(256) for _ in range(3000))
+                out += struct.pack("!H", len(pl)) + pl
+            return out
+
+        foreign = set()
+
+        def attack(tag):
+            nonlocal n_inj
+            if victim not in passive:
+                return
+            for c in range(rng.randint(1, 2)):
+                name = f"x{tag}{c}"
+                stt = s.op(f"tcpconn {name} {passive[victim]}")[1]
+                if " local " in stt:
+                    foreign.add(stt.split(" local ")[1].strip())
+                s.op("settle 60")
+                s.op(f"tcpsend {name} {frames(tag).hex()}")
+                n_inj += 1
+                s.op("settle 60"); s.op("run 20")
+        attack("pre")
+        for st in ("creds A 1 B 1", "creds B 1 A 1", "cands A 1 1 B 1", "cands B 1 1 A 1"):
+            s.op(st)
+            if rng.random() < 0.4:
+                attack("mid")
+        s.op("settle 300"); s.op("runidle 30000"); s.op("settle 300"); s.op("run 500")
+        qa, qb = simlib.parse_q(s.op("q A 1 1")[1]), simlib.parse_q(s.op("q B 1 1")[1])
+        ready = qa["state"] == "READY" and qb["state"] == "READY"
+        attack("post")
+        # connections opened earlier write again now that a legitimate TCP check has completed
+        for name in [l.split()[1] for l in s.script if l.startswith("tcpconn")][:3]:
+            s.op(f"tcpsend {name} {frames('late').hex()}")
+            s.op("settle 60"); s.op("run 20")
+        s.op(f"send {other} 1 1 c0ffee"); s.op("settle 200"); s.op("run 200")
+        got = [m.group(2) for e in s.events() for m in [re.match(r"t=\d+ (\w+) recv 1 1 (\S+)", e)] if m]
+        for g in got:
+            try:
+                raw = bytes.fromhex(g) if g != "-" else b""
+            except ValueError:
+                raw = b""
+            if raw.startswith(b"EVIL") or (g != "c0ffee" and raw):
+                bad.append(("attacker-data-delivered", f"the application received {raw[:24]!r}... ({len(raw)} bytes) that the peer never sent "
+                                                       f"(foreign TCP connection to {victim}'s passive candidate)"))
+                break
+        if ready and "c0ffee" not in got:
+            bad.append(("legit-data-lost", "the peer's own message did not arrive while foreign TCP connections were open"))
+        for e in s.events():
+            m = re.search(r"new-remote-candidate .* addr=(\S+) base", e)
+            if m and m.group(1) in foreign:
+                bad.append(("interference", f"remote candidate created from a foreign TCP connection: {e[:140]}"))
+            m = re.search(r" selected \d+ \d+ .*", e)
+            if m and any(f in e for f in foreign):
+                bad.append(("interference", f"a pair with a foreign TCP connection was selected: {e[:140]}"))
+        return dict(seed=seed, cfg={"transport": "icetcp", "victim": victim}, bad=bad, script=s.script, n_inj=n_inj, ready=ready, nev=len(s.events()))
+    except simlib.SimDied as e:
+        return dict(seed=seed, cfg={"transport": "icetcp"}, bad=[("crash", str(e)[-1500:])], script=s.script, n_inj=n_inj, ready=False, nev=0)
+    finally:
+        s.close()
+
+
 def run(tier, seed):
     chk = vlib.Check("C03", tier, seed)
     chk.cov["trusted_base"] = TRUSTED
@@ -233,6 +342,7 @@ def run(tier, seed):
         else:
             n = 150 if tier == "quick" else 3000
             res = simlib.run_parallel(scenario, [(exe, seed * 100000 + i, tier) for i in range(n)])
+            res += simlib.run_parallel(tcp_scenario, [(exe, seed * 100000 + i, tier) for i in range(max(n // 5, 20))])
             for r in res:
                 for kind, what in r["bad"]:
                     ofail.append({"why": f"{kind}: {what}", "config": r["cfg"], "session": r["script"]})
@@ -244,6 +354,7 @@ def run(tier, seed):
                                "still reached READY on every component")
             chk.cov["samples"] = [[l for l in res[0]["script"] if l.startswith("inject")][:6]]
             chk.cov["generator_distribution"] = {"injected_total": sum(r["n_inj"] for r in res),
+                                                 "icetcp_foreign_connection_sessions": sum(1 for r in res if r["cfg"].get("transport") == "icetcp"),
                                                  "sessions_ready": sum(1 for r in res if r["ready"])}
     return conclude(chk, st, diverged, ofail, "sim_drv:C03 paired non-interference runs")
 
